@@ -252,8 +252,12 @@ def d1(ctx, rep):
         if not l1:
             rep.undecided('D1.accessor', fn, fn.node.name, f'{meth}: how the two inputs of an edge are read was not recognised', construct=f'{meth} level 1')
         else:
-            ok1 = bool(l1) and sorted(l1.values()) == ['L', 'R'] and any(k.startswith('left') and v == 'L' for k, v in l1.items()) \
-                and any(k.startswith('right') and v == 'R' for k, v in l1.items())
+            # the name bound to column L at level 1 is the one that receives the first result of get_conditional_uni above level 1
+            # (both branches define the same pair of inputs, in the same roles)
+            dn = p['deeper'] if isinstance(p['deeper'], list) and len(p['deeper']) == 2 and p['deeper'] != ['left_u', 'right_u'] else None
+            ok1 = bool(l1) and sorted(l1.values()) == ['L', 'R']
+            if ok1 and dn is not None and all(dn):
+                ok1 = l1.get(dn[0]) == 'L' and l1.get(dn[1]) == 'R'
             rep.check('D1.accessor', fn, fn.node.name, ok1, f'{meth}: level 1 reads u_matrix[:, edge.L] as left and u_matrix[:, edge.R] as right{via}',
                       f'{meth}: at level 1 the two inputs of an edge are not (u_matrix[:, L], u_matrix[:, R]) ({l1})', construct=f'{meth} level 1')
         if p['deeper']:
@@ -370,7 +374,16 @@ def d2(ctx, rep):
         x0 = _pair_of(fn, pd_calls[0].value.args[0]) if pd_calls[0].value.args else None
         x1 = _pair_of(fn, pd_calls[1].value.args[0]) if pd_calls[1].value.args else None
         if order and set(order) == set(names) and x0 and x1 and all(isinstance(z, str) for z in x0 + x1):
-            ok = order == names and x0 == list(reversed(x1)) and x0[0].startswith('left') and x0[1].startswith('right')
+            # which of the two inputs is the edge's L input: the name bound to u_matrix[:, edge.L] at level 1 (role, not spelling)
+            lvl1 = (accessor_pattern(prog, fn, ctx).get('level1') or {})
+            name_l = [k_ for k_, v_ in lvl1.items() if v_ == 'L']
+            name_r = [k_ for k_, v_ in lvl1.items() if v_ == 'R']
+            if len(name_l) == 1 and len(name_r) == 1:
+                ok = order == names and x0 == list(reversed(x1)) and x0[0] == name_l[0] and x0[1] == name_r[0]
+            elif order == names and x0 == list(reversed(x1)):
+                ok = None   # the layout is consistent; which input belongs to L is not derived
+            else:
+                ok = False
     for u_ in ust:
         narrow = [x for x in ast.walk(u_.value) if isinstance(x, (ast.Attribute, ast.Constant)) and
                   ((isinstance(x, ast.Attribute) and x.attr in ('float32', 'float16', 'half', 'single')) or (isinstance(x, ast.Constant) and x.value in ('float32', 'float16', 'f4', 'f2')))]
